@@ -23,6 +23,11 @@ def gen_case(rng, tier):
         sp = M.state_paths(flat)
         if len(set(sp)) != len(sp):
             continue
+        if rng.random() < 0.3:
+            # values overridden after construction through CircuitTemplate.update_var on single nodes
+            cand = sorted(M.const_paths(flat)) + sp
+            mdl["post_values"] = {p: C.q2s(F(rng.randint(-5, 5), rng.choice([1, 2]))) for p in rng.sample(cand, min(len(cand), rng.randint(1, 2)))}
+            flat = M.flatten(mdl)
         pts = [{p: C.q2s(F(rng.randint(-3, 3), rng.choice([1, 1, 2]))) for p in sp} for _ in range(3)]
         cps = M.const_paths(flat)
         pis = [{}, {}, {}]
